@@ -176,6 +176,14 @@ pub fn workloads() -> Vec<Workload> {
             write_set: vec![1],
         },
         Workload {
+            name: "W16-reregistration-changes-precedence-and-associativity",
+            about: "a re-registration that changes precedence AND associativity (same handler) next to a built-in operator on the old level: every evaluation groups by the old pair or by the new pair, never by a mixture of the two",
+            pre: vec![Exec("1 + 1"), RegInfix("xq", 110, false, "Q")],
+            threads: vec![vec![Exec("9 xq 3 + 1"), Exec("9 xq 3 + 1")], vec![RegInfix("xq", 50, true, "Q")]],
+            post: vec![Exec("9 xq 3 + 1")],
+            write_set: vec![1],
+        },
+        Workload {
             name: "W14-reregister-existing-prefix-operators",
             about: "re-registration of a user prefix operator and of the built-in `!` against evaluations using them: each evaluation sees the old or the new handler, never none",
             pre: vec![Exec("1 + 1"), RegPrefix("npre", "old")],
